@@ -99,3 +99,164 @@ def hermitian_contract():
                     loops={4: LoopSpec(inv_j), 5: LoopSpec(inv_k)},
                     local_shapes={"ddnac": lambda V: [3, V.p.num_patom, V.p.num_patom, 3, 3], "dnac": lambda V: [V.p.num_patom, V.p.num_patom, 3, 3]},
                     use_contracts={"get_derivative_dynmat_at_q", "get_derivative_nac"}, gen=gen, lib="derivative_dynmat")
+
+
+# ------------------------------------------------------------------ NAC derivative helpers: get_A, get_dA, get_C, get_dC
+def nac_scalar_lemmas(run):
+    """get_dA(atom, cart_i, cart_j) == d/dq_j get_A(atom, cart_i, q) and get_dC(.., cart_k, q) == d/dq_k get_C(q),
+    by mechanical differentiation of the extracted terms (get_C is the quadratic form q.eps.q, eps not assumed symmetric)."""
+    import sympy as sp
+    from pvc import cas
+    terms = {}
+
+    def grab(key):
+        def after(ex, outs, Vold):
+            from pvc.cexec import merge_outcomes
+            terms[key] = merge_outcomes(outs)[1]
+        return after
+    SHQ = {"q": lambda P: [3], "born": lambda P: [Z3N, 3, 3], "dielectric": lambda P: [3, 3]}
+    cs = []
+    for ci in range(3):
+        cs.append(Contract(F, "get_A", fixed={"cart_i": ci}, tag="[cart_i=%d]" % ci, shapes=SHQ,
+                           requires=lambda V: [V.p.atom_i >= 0, V.p.atom_i < Z3N], after=grab(("A", ci))))
+        for cj in range(3):
+            cs.append(Contract(F, "get_dA", fixed={"cart_i": ci, "cart_j": cj}, tag="[cart_i=%d,cart_j=%d]" % (ci, cj), shapes=SHQ,
+                               requires=lambda V: [V.p.atom_i >= 0, V.p.atom_i < Z3N], after=grab(("dA", ci, cj))))
+    cs.append(Contract(F, "get_C", shapes=SHQ, after=grab(("C",))))
+    for ck in range(3):
+        cs.append(Contract(F, "get_dC", fixed={"cart_i": 0, "cart_j": 0, "cart_k": ck}, tag="[cart_k=%d]" % ck, shapes=SHQ, after=grab(("dC", ck))))
+    run.verify_c(cs)
+    qs = [sp.Symbol("q_%d" % k, real=True) for k in range(3)]
+    pref = "lemma:C12:nac-derivative"
+    for ci in range(3):
+        A = cas.to_sympy(terms[("A", ci)])
+        for cj in range(3):
+            run.lemma(pref, "deriv", "get_dA(cart_i=%d, cart_j=%d) == d get_A(cart_i=%d)/d q_%d" % (ci, cj, ci, cj), [], None, backend="poly",
+                      pairs=[(sp.srepr(sp.diff(A, qs[cj])), sp.srepr(cas.to_sympy(terms[("dA", ci, cj)])))])
+    C = cas.to_sympy(terms[("C",)])
+    for ck in range(3):
+        run.lemma(pref, "deriv", "get_dC(cart_k=%d) == d get_C / d q_%d" % (ck, ck), [], None, backend="poly",
+                  pairs=[(sp.srepr(sp.diff(C, qs[ck])), sp.srepr(cas.to_sympy(terms[("dC", ck)])))])
+
+
+Z3N = z3.Int("num_patom")
+
+
+# ------------------------------------------------------------------ get_derivative_dynmat_at_q: functional contract
+from pvc.spec import RecSum      # noqa: E402
+from contracts.c_dynmat import wf_maps   # noqa: E402
+
+I = z3.IntSort()
+p_, q_, c_ = z3.Ints("p_ q_ c_")
+
+
+class DSpec:
+    """Cartesian q-derivative of the lattice Fourier sum (convention of the code: D ~ exp(2 pi i q.s), the derivative with
+    respect to the Cartesian wave vector component c multiplies every image term by 2 pi i (L s)_c, L = lattice, column vectors)."""
+
+    def __init__(self, V):
+        q, sv, mu, L = V.a.q, V.a.svecs, V.a.multi, V.a.lattice
+        fc, p2s, s2p, mass = V.a.fc, V.a.p2s_map, V.a.s2p_map, V.a.mass
+        cos = z3.Function("c_cos", z3.RealSort(), z3.RealSort())
+        sin = z3.Function("c_sin", z3.RealSort(), z3.RealSort())
+        sq = z3.Function("c_sqrt", z3.RealSort(), z3.RealSort())
+        is_nac = V.p.is_nac
+
+        def phase(k, i, l):
+            a = mu[k, i, 1] + l
+            return (q[0] * sv[a, 0] + q[1] * sv[a, 1] + q[2] * sv[a, 2]) * 2 * PI
+
+        def coef(c, k, i, l):
+            a = mu[k, i, 1] + l
+            return 2 * PI * L[c, 0] * sv[a, 0] + 2 * PI * L[c, 1] * sv[a, 1] + 2 * PI * L[c, 2] * sv[a, 2]
+        self.cP = RecSum("ddm_cP", [I, I], lambda k, i, l: cos(phase(k, i, l)))
+        self.sP = RecSum("ddm_sP", [I, I], lambda k, i, l: sin(phase(k, i, l)))
+        self.rC = RecSum("ddm_rC", [I, I, I], lambda c, k, i, l: -(coef(c, k, i, l) * sin(phase(k, i, l))))
+        self.iC = RecSum("ddm_iC", [I, I, I], lambda c, k, i, l: coef(c, k, i, l) * cos(phase(k, i, l)))
+        has_nac = "dnac" in V.a and "ddnac" in V.a
+
+        def term(which):
+            def t(i, j, c, a, b, k):
+                m = z3.ToReal(mu[k, i, 0])
+                ms = sq(mass[i] * mass[j])
+                fe = fc[p2s[i], k, a, b] / ms
+                C_, P_ = (self.rC, self.cP) if which == "re" else (self.iC, self.sP)
+                val = fe * (C_(c, k, i, mu[k, i, 0]) / m)
+                if has_nac:
+                    fe2 = fe + V.a.dnac[i, j, a, b]
+                    val_nac = fe2 * (C_(c, k, i, mu[k, i, 0]) / m) + V.a.ddnac[c, i, j, a, b] * (P_(k, i, mu[k, i, 0]) / m)
+                    val = z3.If(is_nac != 0, val_nac, val)
+                return z3.If(s2p[k] == p2s[j], val, z3.RealVal(0))
+            return t
+        self.Tre = RecSum("ddm_Tre", [I, I, I, I, I], term("re"))
+        self.Tim = RecSum("ddm_Tim", [I, I, I, I, I], term("im"))
+
+
+def derivative_block_contract():
+    def req(V):
+        i, j = V.p.i, V.p.j
+        return wf_maps(V) + [i >= 0, i < V.p.num_patom, j >= 0, j < V.p.num_patom, V.a.mass[i] * V.a.mass[j] > 0,
+                             z3.Implies(V.p.is_nac != 0, z3.And(z3.Not(V.null.ddnac), z3.Not(V.null.dnac)))]
+
+    def acc(V, k):
+        S = DSpec(V.old)
+        i, j = V.p.i, V.p.j
+        out = []
+        for c in range(3):
+            for a in range(3):
+                for b in range(3):
+                    out.append(("re[%d,%d,%d]" % (c, a, b), V.a.ddm_real[c, a, b] == S.Tre(i, j, c, a, b, k)))
+                    out.append(("im[%d,%d,%d]" % (c, a, b), V.a.ddm_imag[c, a, b] == S.Tim(i, j, c, a, b, k)))
+        return out
+
+    def unfold_T(V, k):
+        S = DSpec(V.old)
+        i, j = V.p.i, V.p.j
+        out = []
+        for c in range(3):
+            for a in range(3):
+                for b in range(3):
+                    for Rr in (S.Tre, S.Tim):
+                        out += [Rr.zero(i, j, c, a, b), Rr.unfold(i, j, c, a, b, k), Rr.unfold(i, j, c, a, b, k - 1)]
+        return out
+
+    def inv_k(V):
+        return [("range", z3.And(V.v.k >= 0, V.v.k <= V.p.num_satom))] + acc(V, V.v.k)
+
+    def inv_l(V):
+        S = DSpec(V.old)
+        k, i, l = V.v.k, V.p.i, V.v.l
+        m = V.old.a.multi[k, i, 0]
+        out = [("range", z3.And(l >= 0, l <= m, k >= 0, k < V.p.num_satom)),
+               ("cP", V.v.real_phase == S.cP(k, i, l)), ("sP", V.v.imag_phase == S.sP(k, i, l))]
+        for c in range(3):
+            out.append(("rC[%d]" % c, V.a.real_coef[c] == S.rC(c, k, i, l)))
+            out.append(("iC[%d]" % c, V.a.imag_coef[c] == S.iC(c, k, i, l)))
+        return out + acc(V, k)
+
+    def unfold_l(V):
+        S = DSpec(V.old)
+        k, i, l = V.v.k, V.p.i, V.v.l
+        out = [S.cP.zero(k, i), S.sP.zero(k, i), S.cP.unfold(k, i, l), S.sP.unfold(k, i, l), S.cP.unfold(k, i, l - 1), S.sP.unfold(k, i, l - 1)]
+        for c in range(3):
+            out += [S.rC.zero(c, k, i), S.iC.zero(c, k, i), S.rC.unfold(c, k, i, l), S.iC.unfold(c, k, i, l),
+                    S.rC.unfold(c, k, i, l - 1), S.iC.unfold(c, k, i, l - 1)]
+        return out + unfold_T(V, k)
+
+    def ens(V):
+        S = DSpec(V.old)
+        i, j, n3 = V.p.i, V.p.j, 3 * V.p.num_patom
+        M, M0 = V.a.derivative_dynmat, V.old.a.derivative_dynmat
+        out = []
+        for c in range(3):
+            for a in range(3):
+                for b in range(3):
+                    out.append(("block-re[%d,%d,%d]" % (c, a, b), M[c, 3 * i + a, 3 * j + b, 0] == M0[c, 3 * i + a, 3 * j + b, 0] + S.Tre(i, j, c, a, b, V.p.num_satom)))
+                    out.append(("block-im[%d,%d,%d]" % (c, a, b), M[c, 3 * i + a, 3 * j + b, 1] == M0[c, 3 * i + a, 3 * j + b, 1] + S.Tim(i, j, c, a, b, V.p.num_satom)))
+        out.append(("frame", z3.ForAll([c_, p_, q_], z3.Implies(
+            z3.And(c_ >= 0, c_ < 3, p_ >= 0, p_ < n3, q_ >= 0, q_ < n3, z3.Not(z3.And(p_ >= 3 * i, p_ < 3 * i + 3, q_ >= 3 * j, q_ < 3 * j + 3))),
+            z3.And(M[c_, p_, q_, 0] == M0[c_, p_, q_, 0], M[c_, p_, q_, 1] == M0[c_, p_, q_, 1])))))
+        return out
+    return Contract(F, "get_derivative_dynmat_at_q", tag="[functional]", shapes=DDM_SHAPES, nullable=("ddnac", "dnac"), macros={"PI": PI},
+                    requires=req, ensures=ens, modifies=("derivative_dynmat",),
+                    loops={3: LoopSpec(inv_k, unfold=lambda V: unfold_T(V, V.v.k)), 5: LoopSpec(inv_l, unfold=unfold_l)}, abstract_mul=True)
